@@ -81,7 +81,7 @@ func (c *fctx) rangeStmt() []*S {
 	}
 	opts := []opt{}
 	if cfg.Ranges {
-		opts = append(opts, opt{"slice", 5}, opt{"array", 3}, opt{"string", 4}, opt{"map", 3}, opt{"chan", 2}, opt{"int", 4}, opt{"small", 1}, opt{"mapnan", 1})
+		opts = append(opts, opt{"slice", 5}, opt{"array", 3}, opt{"string", 4}, opt{"map", 3}, opt{"chan", 2}, opt{"int", 4}, opt{"small", 1}, opt{"mapnan", 1}, opt{"bound", 1})
 	}
 	if cfg.Consume {
 		opts = append(opts, opt{"iter", 6}, opt{"pull", 3})
@@ -96,6 +96,31 @@ func (c *fctx) rangeStmt() []*S {
 	kind := opts[r.Pick(ws)].name
 	c.g.mark("range_" + kind)
 	c.g.needHelpers = true
+	if kind == "bound" {
+		// an integer range whose limit is the largest value of its type (run to the end: the
+		// key must not wrap) or does not fit the signed type of the same size (left early)
+		obs := func(e string) string {
+			if c.gen && !c.inLit {
+				return "«Yield»(" + e + ")"
+			}
+			return fmt.Sprintf("vrt.E(%d, %s)", c.g.nextTag(), e)
+		}
+		var text string
+		switch r.Intn(5) {
+		case 0:
+			text = fmt.Sprintf("for k9 := range uint8(255) {\n\tif k9 < 253 {\n\t\tcontinue\n\t}\n\t%s\n}", obs("int(k9)"))
+		case 1:
+			text = fmt.Sprintf("for k9 := range small(127) {\n\tif k9 < 125 {\n\t\tcontinue\n\t}\n\t%s\n}", obs("int(k9)"))
+		case 2:
+			text = fmt.Sprintf("for k9 := range ^uint64(0) {\n\tif k9 >= 3 {\n\t\tbreak\n\t}\n\t%s\n}", obs("int(k9)"))
+		case 3:
+			text = fmt.Sprintf("var k9 uint\nfor k9 = range ^uint(0) - 5 {\n\tif k9 >= 2 {\n\t\tbreak\n\t}\n\t%s\n}\n%s", obs("int(k9)"), obs("int(k9) + 40"))
+		default:
+			text = fmt.Sprintf("for k9 := range uintptr(1) << 63 {\n\tif k9 >= 2 {\n\t\tbreak\n\t}\n\t%s\n}", obs("int(k9)"))
+		}
+		// in a block of its own: k9 may be declared again by a later statement of this kind
+		return []*S{{K: SRaw, ID: c.g.id(), Src: "{\n\t" + replaceAll(text, "\n", "\n\t") + "\n}"}}
+	}
 	var pre []*S
 	d := c.sub()
 	d.loops++
